@@ -30,6 +30,7 @@ enum Op {
     Ro(String, Scope, u64),
     Un(String, Scope),
     Sp(Vec<String>),
+    Ee(String, String),
 }
 
 fn parse_scope(t: &str) -> Option<Scope> {
@@ -71,6 +72,7 @@ fn parse_op(t: &str) -> Option<Op> {
         ["ro", n, s, l] => Op::Ro(dec_str(n)?, parse_scope(s)?, l.parse().ok()?),
         ["un", n, s] => Op::Un(dec_str(n)?, parse_scope(s)?),
         ["sp", ps @ ..] => Op::Sp(strs(ps)?),
+        ["ee", n, v] => Op::Ee(dec_str(n)?, dec_str(v)?),
         _ => return None,
     })
 }
@@ -118,6 +120,7 @@ trait View {
     fn iter(&self, s: Scope) -> Vec<(String, Variable)>;
     fn env(&self) -> Vec<Vec<u8>>;
     fn params(&self) -> Vec<String>;
+    fn get_scalar(&self, n: &str) -> Option<String>;
 }
 
 impl View for VariableSet {
@@ -140,6 +143,9 @@ impl View for VariableSet {
     }
     fn params(&self) -> Vec<String> {
         self.positional_params().values.clone()
+    }
+    fn get_scalar(&self, n: &str) -> Option<String> {
+        VariableSet::get_scalar(self, n).map(|s| s.to_string())
     }
 }
 
@@ -166,6 +172,7 @@ fn observe<V: View + ?Sized>(s: &V, r: &str, names: &[String]) -> String {
             show_opt_var(s.get_scoped(n, Scope::Local).as_ref()),
             show_opt_var(s.get_scoped(n, Scope::Volatile).as_ref()),
         ));
+        out.push_str(&format!("|{}", s.get_scalar(n).map(|x| enc_str(&x)).unwrap_or_else(|| "~".into())));
     }
     for (tag, sc) in [("ig", Scope::Global), ("il", Scope::Local), ("iv", Scope::Volatile)] {
         let mut v: Vec<String> = s
@@ -332,6 +339,15 @@ impl Naive {
                 }
                 format!("un({})", show_opt_var(top.as_ref()))
             }
+            Op::Ee(n, v) => {
+                // "assigns the values, overwriting existing variables; the variables are exported;
+                // an existing read-only variable is left alone"
+                let r = self.apply(&Op::As(n.clone(), Scope::Global, Value::scalar(v.as_str()), None));
+                if !r.starts_with("ro(") {
+                    self.apply(&Op::Ex(n.clone(), Scope::Global, true));
+                }
+                "done".into()
+            }
             Op::Sp(ps) => {
                 let i = self.top_regular();
                 self.ctxs[i].params = ps.clone();
@@ -379,6 +395,12 @@ impl View for Naive {
     }
     fn params(&self) -> Vec<String> {
         self.ctxs[self.top_regular()].params.clone()
+    }
+    fn get_scalar(&self, n: &str) -> Option<String> {
+        match View::get(self, n)?.value? {
+            Value::Scalar(x) => Some(x),
+            Value::Array(_) => None,
+        }
     }
 }
 
@@ -485,6 +507,10 @@ fn apply_real(vs: &mut VariableSet, op: &Op) -> String {
             vs.positional_params_mut().values = ps.clone();
             "done".into()
         }
+        Op::Ee(n, v) => {
+            vs.extend_env([(n.clone(), v.clone())]);
+            "done".into()
+        }
         Op::PushR(_) | Op::PushV | Op::Pop => unreachable!(),
     });
     // the documented panic of `get_or_new(_, Scope::Volatile)` without a volatile top context
@@ -545,7 +571,7 @@ fn names_of(ops: &[Op]) -> Vec<String> {
     let mut v: Vec<String> = ops
         .iter()
         .filter_map(|op| match op {
-            Op::Gn(n, _) | Op::As(n, ..) | Op::Ex(n, ..) | Op::Ro(n, ..) | Op::Un(n, _) => {
+            Op::Gn(n, _) | Op::As(n, ..) | Op::Ex(n, ..) | Op::Ro(n, ..) | Op::Un(n, _) | Op::Ee(n, _) => {
                 Some(n.clone())
             }
             _ => None,
@@ -1248,6 +1274,7 @@ fn alphabet(thorough: bool) -> Vec<String> {
         ops.push(format!("as {Y} l a:35,36 5"));
         ops.push(format!("ro {Y} g 8"));
         ops.push(format!("ex {Y} v 1"));
+        ops.push(format!("ee {X} 39"));
     }
     ops
 }
@@ -1302,7 +1329,9 @@ fn random_case(r: &mut Rng, thorough: bool) -> String {
                 format!("ro {name} {scope} {next_loc}")
             }
             16 | 17 => format!("un {name} {scope}"),
-            18 => format!("gn {name} {scope}"),
+            18 => {
+                if r.chance(1, 2) { format!("gn {name} {scope}") } else { format!("ee {name} {}", r.pick(&["31", "-", "37"])) }
+            }
             _ => format!("sp {}", r.pick(&["", "61", "62 63"])).trim().to_string(),
         };
         ops.push(op);
